@@ -58,7 +58,7 @@ def run_replay(exe, path, extra_env=None, budget=None, timeout=600, args=None):
 
 def fail_summary(out):
     """One line describing the failure, from the harness / sanitizer output."""
-    for pat in (r'VERIF-FAIL\[[^\]]*\]: .*', r'VERIF-TIMEOUT.*', r'==\d+==ERROR: AddressSanitizer: [^\n]*', r'[^\n]*runtime error: [^\n]*',
+    for pat in (r'VERIF-FAIL\[[^\]]*\]: .*', r'VERIF-TIMEOUT.*', r'VERIF-STALL.*', r'==\d+==ERROR: AddressSanitizer: [^\n]*', r'[^\n]*runtime error: [^\n]*',
                 r'WARNING: ThreadSanitizer: [^\n]*', r'ASSERTION FAILED[^\n]*', r'MCRASH[^\n]*', r'[^\n]*Assertion [^\n]* failed[^\n]*', r'AddressSanitizer:DEADLYSIGNAL'):
         m = re.search(pat, out)
         if m:
@@ -230,7 +230,11 @@ class Runner:
             self.inconclusive.append({'target': t.name, 'what': 'case exceeded the CPU budget (not a violation for this property)', 'input_sha1': hashlib.sha1(data).hexdigest()})
             log('  timeout candidate: inconclusive for this property')
             return False
-        path = self.save_violation(t, data, summary, out, minimise=(rc != 98), extra_env=extra_env)
+        if rc == 97 and not t.spec.get('stall_is_violation'):
+            self.inconclusive.append({'target': t.name, 'what': 'case blocked with the CPU idle (not a violation for this property)', 'input_sha1': hashlib.sha1(data).hexdigest()})
+            log('  stalled candidate: inconclusive for this property')
+            return False
+        path = self.save_violation(t, data, summary, out, minimise=(rc not in (97, 98)), extra_env=extra_env)
         self.violations.append((t.name, path, summary))
         log('  reproducible failure: %s' % summary)
         return True
@@ -323,6 +327,11 @@ class Runner:
                                           'input_sha1': __import__('hashlib').sha1(data).hexdigest()})
                 continue
             if self.handle_candidate(t, data, 'generation worker %d' % w):
+                continue
+            if rc == 97:
+                if not t.spec.get('stall_is_violation'):
+                    continue
+                self.inconclusive.append({'target': t.name, 'what': 'worker %d: a case blocked with the CPU idle but does not block when replayed alone; the rest of that worker\'s cases were not run' % w, 'input_sha1': __import__('hashlib').sha1(data).hexdigest()})
                 continue
             # the single input does not reproduce: does the whole worker run?
             rr = []
